@@ -223,7 +223,7 @@ type bonded struct {
 	power int64
 }
 
-func runC16L2(seed uint64, id int, histLen, probeLen int, rep *Report) (string, bool) {
+func runC16L2(seed uint64, id int, histLen, probeLen int, boundary bool, rep *Report) (string, bool) {
 	sc := NewL2Scenario(seed, id, false)
 	e := sc.Env
 	c := sc.Case
@@ -251,9 +251,15 @@ func runC16L2(seed uint64, id int, histLen, probeLen int, rep *Report) (string, 
 		do(g)
 		ops = append(ops, g)
 	}
-	// a block boundary
-	do(gop{End: true})
-	ops = append(ops, gop{End: true})
+	// most cases end at a block boundary; the others are exported in the middle of a block
+	// (validators added or removed but not yet processed by the EndBlocker)
+	if boundary {
+		do(gop{End: true})
+		ops = append(ops, gop{End: true})
+		rep.Hist("l2-state:block-boundary")
+	} else {
+		rep.Hist("l2-state:mid-block")
+	}
 	internOff = true
 	hist := make([]string, len(ops))
 	for i, o := range ops {
@@ -394,7 +400,7 @@ func genC16L2(seed uint64, tier, outdir string) *Report {
 		if k%8 == 7 {
 			hl = 6
 		}
-		text, nt := runC16L2(seed*100019+uint64(k), id, hl, probeLen, rep)
+		text, nt := runC16L2(seed*100019+uint64(k), id, hl, probeLen, k%3 != 2, rep)
 		rep.CountCase(text, nt)
 		if k == 0 {
 			rep.Sample(map[string]interface{}{"kind": "random L2 schedule, then export/validate/import/export + probes (case text, truncated)", "case": text[:min(len(text), 1500)]})
